@@ -1,0 +1,195 @@
+//go:build verif
+
+package xmss
+
+// Contracts for the deductive verifier in /verif (govc).  Comment-only file, compiled only with the
+// build tag `verif`; it adds no symbol.
+
+//@ tagset ALLX := C01 C02 C04 C06 C08 C09 C11 C14 C15 C16
+//@ tagset XF := C01 C04 C06
+
+// WOTS parameter sets for n = 32 (RFC 8391 section 3.1.1): len1 = ceil(8n/lg w), len2 = floor(lg(len1 (w-1))/lg w) + 1
+//@ pred wotsOK(p) := p.n == 32 && ((p.w == 4 && p.logW == 2 && p.len1 == 128 && p.len2 == 5 && p.len == 133 && p.keySize == 4256) || (p.w == 16 && p.logW == 4 && p.len1 == 64 && p.len2 == 3 && p.len == 67 && p.keySize == 2144) || (p.w == 256 && p.logW == 8 && p.len1 == 32 && p.len2 == 2 && p.len == 34 && p.keySize == 1088))
+
+//@ func NewWOTSParams
+//@   trusted "floating-point code (math.Log2/Ceil/Floor); the contract is the 3-point table for w in {4,16,256}, n = 32, decided exhaustively by running the real function (table back end)"
+//@   requires n == 32 && (w == 4 || w == 16 || w == 256)
+//@   ensures wotsOK(result) && result.w == w
+
+//@ func NewXMSSParams
+//@   inline
+//@ func calculateSignatureBaseSize
+//@   inline
+//@ func getSignatureSize
+//@   inline
+
+// ---- descriptor.go ----
+
+//@ func NewQRLDescriptor
+//@   inline
+//@ func NewQRLDescriptorFromExtendedSeed
+//@   inline
+//@ func NewQRLDescriptorFromExtendedPK
+//@   inline
+//@ func LegacyQRLDescriptorFromExtendedPK
+//@   inline
+//@ func QRLDescriptor.GetHeight
+//@   inline
+//@ func QRLDescriptor.GetHashFunction
+//@   inline
+//@ func QRLDescriptor.GetSignatureType
+//@   inline
+//@ func QRLDescriptor.GetAddrFormatType
+//@   inline
+
+//@ func NewQRLDescriptorFromBytes
+//@   panics "Descriptor size should be 3 bytes" when len(descriptorBytes) != 3
+//@   ensures result.hashFunction == descriptorBytes[0] % 16 && result.signatureType == descriptorBytes[0] / 16
+//@   ensures result.height == 2 * (descriptorBytes[1] % 16) && result.addrFormatType == descriptorBytes[1] / 16
+
+//@ func LegacyQRLDescriptorFromBytes
+//@   panics "Descriptor size should be 3 bytes" when len(descriptorBytes) != 3
+//@   ensures result.hashFunction == descriptorBytes[0] % 16 && result.signatureType == descriptorBytes[0] / 16
+//@   ensures result.height == 2 * (descriptorBytes[1] % 16) && result.addrFormatType == descriptorBytes[1] / 16
+
+//@ func QRLDescriptor.GetBytes
+//@   ensures result[0] == (d.signatureType % 16) * 16 + d.hashFunction % 16
+//@   ensures result[1] == (d.addrFormatType % 16) * 16 + (d.height / 2) % 16
+//@   ensures result[2] == 0
+
+// ---- addresses ----
+
+//@ func IsValidXMSSAddress
+//@   props C14 C11 C15 C16
+//@   ensures[C11,C16] result <==> (address[0] / 16 == 0 && address[1] / 16 == 0)
+
+// ---- hash.go ----
+
+//@ func coreHash
+//@   requires n == 32 && keyLen <= 96 && len(key) >= keyLen && len(in) >= inLen && inLen + n + keyLen <= 4294967295
+//@   assigns out
+//@   loop 1 invariant 0 <= i && i <= keyLen
+//@   loop 2 invariant 0 <= i && i <= inLen
+
+//@ func prf
+//@   requires keyLen == 32 && len(key) >= 32 && len(in) >= 32
+//@   assigns out
+
+//@ func hashH
+//@   alias in out
+//@   requires n == 32 && len(in) >= 64 && len(pubSeed) >= 32
+//@   ensures forall k_ :: 0 <= k_ && k_ < 7 ==> addr[k_] == old(addr[k_])
+//@   assigns out, *addr
+//@   loop 1 invariant 0 <= i && i <= 2*n
+
+//@ func hashF
+//@   alias in out
+//@   requires n == 32 && len(in) >= 32 && len(pubSeed) >= 32
+//@   ensures forall k_ :: 0 <= k_ && k_ < 7 ==> addr[k_] == old(addr[k_])
+//@   assigns out, *addr
+//@   loop 1 invariant 0 <= i && i <= n
+
+//@ func hMsg
+//@   requires n == 32 && len(key) <= 4096
+//@   ensures iserr(result) <==> (len(key) != 3*n || len(in) + n + len(key) > 4294967295)
+//@   assigns out
+
+// ---- WOTS / L-tree / authentication path (verification side) ----
+
+//@ func genChain
+//@   alias in out
+//@   requires wotsOK(params) && len(out) >= 32 && len(in) >= 32 && len(pubSeed) >= 32
+//@   ensures forall k_ :: 0 <= k_ && k_ < 6 ==> addr[k_] == old(addr[k_])
+//@   assigns out, *addr
+//@   loop 1 invariant 0 <= j && j <= params.n
+//@   loop 2 invariant start <= i && (i <= params.w || i == start) && forall k_ :: 0 <= k_ && k_ < 6 ==> addr[k_] == old(addr[k_])
+//@   loop 2 decreases params.w - i
+
+//@ func CalcBaseW
+//@   requires wotsOK(params) && len(output) >= outputLen && 8*len(input) >= outputLen*params.logW
+//@   ensures forall k_ :: 0 <= k_ && k_ < outputLen ==> output[k_] <= params.w - 1
+//@   assigns output[0:outputLen]
+//@   loop 1 invariant 0 <= consumed && consumed <= outputLen && out == consumed && 0 <= in && bits <= 8 && bits % params.logW == 0
+//@   loop 1 invariant 8*in == consumed*params.logW + bits
+//@   loop 1 invariant forall k_ :: 0 <= k_ && k_ < consumed ==> output[k_] <= params.w - 1
+//@   loop 1 invariant forall q :: q < 0 || q >= outputLen ==> output[q] == old(output[q])
+
+//@ func wotsPKFromSig
+//@   requires wotsOK(wotsParams) && len(pk) >= wotsParams.keySize && len(sig) >= wotsParams.keySize && len(msg) >= 32 && len(pubSeed) >= 32
+//@   assigns pk, *addr
+//@   loop 1 invariant 0 <= i && i <= XMSSWOTSLEN1
+//@   loop 2 invariant 0 <= i && i <= XMSSWOTSLEN2
+//@   loop 2 invariant forall k_ :: 0 <= k_ && k_ < XMSSWOTSLEN1 + i ==> baseW[k_] <= XMSSWOTSW - 1
+//@   loop 3 invariant 0 <= i && i <= XMSSWOTSLEN
+//@   loop 3 invariant forall k_ :: 0 <= k_ && k_ < XMSSWOTSLEN ==> baseW[k_] <= XMSSWOTSW - 1
+
+//@ func lTree
+//@   requires wotsOK(params) && len(wotsPK) >= params.keySize && len(leaf) >= 32 && len(pubSeed) >= 32
+//@   assigns leaf[0:32], wotsPK, *addr
+//@   loop 1 invariant 1 <= l && l <= params.len && n == 32
+//@   loop 1 decreases l
+//@   loop 2 invariant 0 <= i && i <= bound && bound == l / 2
+
+//@ func validateAuthPath
+//@   requires n == 32 && 1 <= h && h <= 30 && len(root) >= 32 && len(leaf) >= 32 && len(authpath) >= h*32 && len(pub_seed) >= 32
+//@   assigns root[0:32], *addr
+//@   loop 1 invariant 0 <= j && j <= n
+//@   loop 2 invariant 0 <= j && j <= n
+//@   loop 3 invariant 0 <= j && j <= n
+//@   loop 4 invariant 0 <= j && j <= n
+//@   loop 5 invariant 0 <= i && i <= h - 1 && authPathOffset == (i+1)*n
+//@   loop 6 invariant 0 <= j && j <= n
+//@   loop 7 invariant 0 <= j && j <= n
+
+//@ func xmssVerifySig
+//@   requires wotsOK(wotsParams) && len(pk) == 64 && 1 <= h && h <= 30 && len(sigMsg) >= 36 + wotsParams.keySize + 32*h
+//@   loop 1 invariant 0 <= i && i <= n
+
+//@ func getHeightFromSigSize
+//@   requires wotsParamW == 4 || wotsParamW == 16 || wotsParamW == 256
+//@   panics "Invalid signature size" when sigSize < 36 + spec.wotsKeySize(wotsParamW) || (sigSize - 4) % 32 != 0
+//@   ensures result == (sigSize - 36 - spec.wotsKeySize(wotsParamW)) / 32
+
+//@ func VerifyWithCustomWOTSParamW
+//@   props C14 C04 C06 C15 C16
+//@   requires wotsParamW == 4 || wotsParamW == 16 || wotsParamW == 256
+//@   panics "invalid signature size. Height<=254"
+//@   panics "invalid signature type"
+//@   panics "Invalid signature size"
+//@   panics "For BDS traversal, H - K must be even, with H > K >= 2!"
+
+//@ func Verify
+//@   props C14 C04 C06 C15 C16
+//@   panics "invalid signature size. Height<=254"
+//@   panics "invalid signature type"
+//@   panics "Invalid signature size"
+//@   panics "For BDS traversal, H - K must be even, with H > K >= 2!"
+
+//@ func GetXMSSAddressFromPK
+//@   props C14 C11 C15 C16 C09
+//@   panics "Address format type not supported" when ePK[1] / 16 != 0
+//@   ensures[C11,C16,C09] result[0] == ePK[0] && result[1] == ePK[1] && result[2] == 0
+//@   ensures[C11,C16,C09] forall q :: 0 <= q && q < 17 ==> result[3+q] == spec.shake(256, spec.sub(ePK[0:], 67), 67, 15+q)
+
+//@ func GetLegacyXMSSAddressFromPK
+//@   props C14 C11 C15
+//@   panics "Address format type not supported" when ePK[1] / 16 != 0
+//@   ensures[C11] result[0] == ePK[0] && result[1] == ePK[1] && result[2] == 0
+//@   ensures[C11] forall q :: 0 <= q && q < 32 ==> result[3+q] == spec.sha256(spec.sub(ePK[0:], 67), 67, q)
+//@   ensures[C11] forall q :: 0 <= q && q < 4 ==> result[35+q] == spec.sha256(spec.sub(result[0:], 35), 35, 28+q)
+//@   loop 1 invariant 0 <= i && i <= 3 && forall k_ :: 0 <= k_ && k_ < i ==> address[k_] == descBytes[k_]
+//@   loop 2 invariant 0 <= i && i <= 32 && addressOffset == 3 && forall k_ :: 0 <= k_ && k_ < 3 ==> address[k_] == descBytes[k_]
+//@   loop 2 invariant forall k_ :: 0 <= k_ && k_ < i ==> address[3+k_] == hashedKey[k_]
+//@   loop 3 invariant 0 <= i && i <= 4 && addressOffset == 35 && hashedKey2Offset == 28 && (forall k_ :: 0 <= k_ && k_ < 3 ==> address[k_] == descBytes[k_]) && (forall k_ :: 0 <= k_ && k_ < 32 ==> address[3+k_] == hashedKey[k_])
+//@   loop 3 invariant forall k_ :: 0 <= k_ && k_ < i ==> address[35+k_] == hashedKey2[28+k_]
+
+//@ func IsValidLegacyXMSSAddress
+//@   props C14 C11 C15
+//@   ensures[C11] result <==> (address[1] / 16 == 0 && forall q :: 0 <= q && q < 4 ==> address[35+q] == spec.sha256(spec.sub(address[0:], 35), 35, 28+q))
+
+// ---- descriptor codec and address validity (C11, spec-level lemmas over the contracts above) ----
+
+//@ lemma xmss.L_desc_roundtrip[C11,C09] : forall hf, st, h, af :: 0 <= hf && hf < 16 && 0 <= st && st < 16 && 0 <= af && af < 16 && 0 <= h && h <= 30 && h % 2 == 0 ==> ((st % 16) * 16 + hf % 16) % 16 == hf && ((st % 16) * 16 + hf % 16) / 16 == st && 2 * (((af % 16) * 16 + (h / 2) % 16) % 16) == h && ((af % 16) * 16 + (h / 2) % 16) / 16 == af && 0 <= (st % 16) * 16 + hf % 16 && (st % 16) * 16 + hf % 16 <= 255 && 0 <= (af % 16) * 16 + (h / 2) % 16 && (af % 16) * 16 + (h / 2) % 16 <= 255
+//@ lemma xmss.L_desc_bytes_roundtrip[C11,C09] : forall b0, b1 :: 0 <= b0 && b0 <= 255 && 0 <= b1 && b1 <= 255 ==> ((b0 / 16) % 16) * 16 + (b0 % 16) % 16 == b0 && ((b1 / 16) % 16) * 16 + ((2 * (b1 % 16)) / 2) % 16 == b1
+//@ lemma xmss.L_addr_xmss_valid_own_invalid_other[C11] : forall b0, b1 :: 0 <= b0 && b0 <= 255 && 0 <= b1 && b1 <= 255 && b0 / 16 == 0 && b1 / 16 == 0 ==> (b0 / 16 == 0 && b1 / 16 == 0) && b0 != 16
+//@ lemma xmss.L_addr_dilithium_valid_own_invalid_other[C11] : forall b1 :: 0 <= b1 && b1 <= 255 ==> 16 == 16 && !(16 / 16 == 0 && b1 / 16 == 0)
